@@ -23,8 +23,12 @@ RULE = ("one run = 2..8 actors (real processes, some with 2 threads) with seeded
         "metadata.json; with and without mmap_mode) x seeded grant order at file-system-call granularity (random with "
         "stickiness, bounded pre-emptions, or targeted at check-then-act windows) x optional kills of actors; "
         "distinct = digest of the (actor, op kind, path class) grant sequence; non-trivial = at least two actors "
-        "were interleaved inside each other's cached calls")
-REAL_CODE = ["joblib.memory (Memory, MemorizedFunc, MemorizedResult, expires_after)", "joblib._store_backends",
+        "were interleaved inside each other's cached calls.  Tier 2: 2-4 THREADS of one process (shared or per-thread "
+        "Memory objects / wrappers) on one directory under the E1 scheduler, pre-empted at line granularity inside "
+        "joblib/memory.py, _store_backends.py, func_inspect.py, disk.py; same oracles; non-trivial = at least two "
+        "pre-emptions inside joblib code")
+REAL_CODE = ["tier 2: the same joblib code in threads of one process (in-memory tables such as _FUNCTION_HASHES shared), real tmpfs",
+             "joblib.memory (Memory, MemorizedFunc, MemorizedResult, expires_after)", "joblib._store_backends",
              "joblib.disk", "joblib.backports.concurrency_safe_rename", "shutil.rmtree",
              "real processes and threads on a real tmpfs directory"]
 STUBBED = ["scheduling of file-system calls (turn-based controller over pipes)", "time.time/datetime.now/time.sleep "
@@ -100,9 +104,138 @@ def gen_case(rng):
     return case
 
 
+N_THR = {"quick": 1200, "thorough": 60000}
+
+
+def gen_thr(rng):
+    """Tier 2: several THREADS of one process on one cache directory, pre-empted at line granularity inside
+    joblib/memory.py, _store_backends.py, func_inspect.py and disk.py (E1); the file system is the real one and each
+    file-system call is atomic here (their interleaving is the business of tier 1)."""
+    from sim import detsched as ds
+    nthr = rng.choice([2, 2, 3, 4])
+    focus = rng.random() < 0.3
+    threads = [gen_script(rng, rng.randint(1, 4), focus) for _ in range(nthr)]
+    if rng.random() < 0.3:
+        fn = rng.choice(FUNCS)
+        threads = [[[rng.choice(["call", "eval", "call", "shelve"]), fn, rng.choice([1, 2])] for _ in range(rng.randint(2, 4))] for _ in range(nthr - 1)]
+        threads.append([rng.choice([["clear"], ["clear"], ["fclear", fn], ["reduce", {"items_limit": 0}]]) for _ in range(rng.randint(1, 3))])
+    return {"thr": True, "threads": threads, "prefill": rng.random() < 0.5, "shared_wrappers": rng.random() < 0.5,
+            "compress": rng.random() < 0.15, "strategy": ds.draw_strategy(rng), "sched_seed": rng.randrange(1 << 31)}
+
+
 def plan(tier, seed):
     for i in range(hz_runs(N_RUNS, tier)):
         yield gen_case(random.Random(H(seed, PROP, i)))
+    for i in range(hz_runs(N_THR, tier)):
+        yield gen_thr(random.Random(H(seed, PROP, "thr", i)))
+
+
+TRACE_THR = ("joblib/memory.py", "joblib/_store_backends.py", "joblib/func_inspect.py", "joblib/disk.py", "joblib/backports.py")
+
+
+def run_thr(case):
+    from sim import detsched as ds
+    from joblib import Memory, expires_after
+    import types, datetime as _dt
+    import joblib.memory as jm, joblib._store_backends as sb, joblib.disk as jd
+    warnings.simplefilter("ignore")
+    __import__("logging").disable(50)
+    root = tempfile.mkdtemp(prefix="c11t_", dir="/dev/shm")
+    try:
+        simfs.write_module(root, 1)
+        vmod = simfs.load_module(root)
+        vmod.ACTOR = 0
+        s = ds.run_sim(case["sched_seed"], None, decisions=case.get("decisions"), strategy=case.get("strategy"),
+                       trace_files=TRACE_THR, max_steps=case.get("max_steps", 400000), max_time=600.0, keep_log=case.get("keep_log", 0))
+        clock = ds.SimClock(1.7e9)
+        jm.time = clock; sb.time = clock; jd.time = clock
+
+        class _DT(_dt.datetime):
+            @classmethod
+            def now(cls, tz=None):
+                return _dt.datetime.fromtimestamp(1.7e9 + s.now)
+        sb.datetime = types.SimpleNamespace(datetime=_DT, timedelta=_dt.timedelta)
+        results = {}
+
+        def wrappers(mem):
+            return ({n: mem.cache(getattr(vmod, n)) for n in FUNCS},
+                    {n: mem.cache(getattr(vmod, n), cache_validation_callback=expires_after(days=1)) for n in FUNCS})
+
+        def main():
+            mem = Memory(os.path.join(root, "cache"), verbose=0, compress=case["compress"])
+            cached, cachedcb = wrappers(mem)
+            if case["prefill"]:
+                for n in FUNCS:
+                    for x in (1, 2):
+                        cached[n](x)
+                del vmod.CALLS[:]
+            raw = {n: getattr(vmod, n) for n in FUNCS}
+            done = []
+            for tid, script in enumerate(case["threads"]):
+                def body(tid=tid, script=script):
+                    if case["shared_wrappers"]:
+                        m_, c_, cb_ = mem, cached, cachedcb
+                    else:           # every thread wraps the functions itself (its own Memory object on the same directory)
+                        m_ = Memory(os.path.join(root, "cache"), verbose=0, compress=case["compress"])
+                        c_, cb_ = wrappers(m_)
+                    results[tid] = _do_ops(0, tid, script, m_, c_, cb_, vmod.CALLS, raw)
+                    done.append(tid)
+                s.spawn("user%d" % tid, body, role="user")
+            while len(done) < len(case["threads"]):
+                s.sleep(0.05)
+        s.run(main)
+        verdict = None
+        if s.failed is not None:
+            verdict = {"class": "hang", "detail": "%s %s" % (s.failed, str(getattr(s, "failed_stacks", []))[:600]),
+                       "sig": {"what": "hang", "tier": "threads"}}
+        elif s.thread_errors:
+            e = s.thread_errors[0]
+            return {"verdict": None, "harness_error": "thread %s: %s %s" % (e[0], e[1], e[2][-500:])}
+        evictors = any(op[0] in ("reduce", "clear", "fclear") for sc in case["threads"] for op in sc)
+        has_cb = any(op[0] == "callcb" for sc in case["threads"] for op in sc)
+        maint = []
+        for tid in sorted(results):
+            for op, tag, val in results[tid]:
+                if verdict is not None:
+                    break
+                if op[0] in ("reduce", "clear", "fclear") and tag == "exception":
+                    maint.append((op[0], val[0]))
+                    if op[0] == "reduce":
+                        verdict = {"class": "reduce_size_raises", "detail": "thread %d: %s raised %s: %s at %s" % (tid, op, val[0], val[1], val[2]),
+                                   "sig": {"what": "reduce_size_raises", "exc": val[0], "tier": "threads"}}
+                elif tag == "exception":
+                    chain = [f[2] for f in val[2]]
+                    verdict = {"class": "call_raises", "detail": "thread %d of one process: %s raised %s: %s at %s" % (tid, op, val[0], val[1], val[2]),
+                               "sig": {"what": "call_raises", "exc": val[0], "where": chain[-1] if chain else None, "tier": "threads"}}
+                elif tag == "value" and val != simfs.expected(1, op[1], (op[2],)):
+                    verdict = {"class": "wrong_value", "detail": "thread %d: %s returned %s" % (tid, op, repr(val)[:150]),
+                               "sig": {"what": "wrong_value", "tier": "threads"}}
+                elif tag == "get_keyerror" and not evictors and not has_cb and case["prefill"]:
+                    verdict = {"class": "shelved_get_keyerror", "detail": "thread %d: %s: %s (no evictor in this run)" % (tid, op, val),
+                               "sig": {"what": "shelved_get_keyerror", "tier": "threads"}}
+        if verdict is None and s.failed is None:
+            for dp, dn, fns in os.walk(os.path.join(root, "cache")):
+                if "output.pkl" in fns:
+                    try:
+                        v = joblib.load(os.path.join(dp, "output.pkl"))
+                        ok = isinstance(v, tuple) and len(v) >= 3 and v == simfs.expected(1, v[1], (v[2],))
+                    except BaseException as e_:  # noqa
+                        ok = False; v = type(e_).__name__
+                    if not ok:
+                        verdict = {"class": "entry_not_complete_at_quiescence", "detail": repr(v)[:120],
+                                   "sig": {"what": "entry_not_complete_at_quiescence", "tier": "threads"}}
+                        break
+        res = {"verdict": verdict, "digest": s.h.hexdigest()[:24], "shape": "thr:" + s.hs.hexdigest()[:16], "steps": s.steps,
+               "switches": s.switches, "sim_time": round(s.now, 3), "faults": {},
+               "probes": dict({"thread_tier_run": 1, "thread_tier_preemptions_inside_joblib": s.preempt_switches + s.stalls},
+                              **{"maintenance_op_raised:%s:%s" % m: 1 for m in maint}),
+               "nontrivial": (s.preempt_switches + s.stalls) >= 2,
+               "sample": {"threads": case["threads"][:3], "strategy": case["strategy"], "shared_wrappers": case["shared_wrappers"]}}
+        if verdict is not None:
+            res["decisions"] = s.decisions
+        return res
+    finally:
+        shutil.rmtree(root, ignore_errors=True)
 
 
 # -----------------------------------------------------------------------------
@@ -205,6 +338,8 @@ def _pclass(kind, rel):
 
 
 def run_case(case):
+    if case.get("thr"):
+        return run_thr(case)
     rng = random.Random(case["sched_seed"])
     root = tempfile.mkdtemp(prefix="c11_", dir="/dev/shm")
     pids = []
@@ -539,6 +674,20 @@ def run_case(case):
 
 
 def shrink(case):
+    if case.get("thr"):
+        th = case["threads"]
+        if len(th) > 2:
+            for k in range(len(th)):
+                yield dict(case, threads=th[:k] + th[k + 1:])
+        for k, sc in enumerate(th):
+            for j in range(len(sc)):
+                if len(sc) > 1:
+                    yield dict(case, threads=th[:k] + [sc[:j] + sc[j + 1:]] + th[k + 1:])
+        if case["prefill"]:
+            yield dict(case, prefill=False)
+        if case["compress"]:
+            yield dict(case, compress=False)
+        return
     acts = case["actors"]
     if len(acts) > 2:
         for k in range(len(acts)):
